@@ -440,11 +440,15 @@ def _mods():
 def _classes():
     """every class defined in the two patched modules"""
     _, core, gcont, _, _ = _mods()
-    out = []
+    out, seen = [], set()
     for m in (core, gcont):
         for name, c in sorted(vars(m).items()):
-            if isinstance(c, type) and c.__module__ == m.__name__:
+            # public classes are re-homed (__module__ == "onnx_ir"), so select by package, not by module
+            if isinstance(c, type) and str(getattr(c, "__module__", "")).split(".")[0] == "onnx_ir" \
+                    and id(c) not in seen:
+                seen.add(id(c))
                 out.append((f"{m.__name__.split('.')[-1]}.{name}", c))
+    assert any(n == "_core.Node" for n, _ in out) and any(n == "_graph_containers._GraphIO" for n, _ in out)
     return out
 
 
